@@ -360,6 +360,10 @@ def hoist(lines, fname):
             hdr = out[k][1].rstrip()
             # strip trailing line comment
             if not (hdr.endswith('{') or hdr.endswith(';')):
+                if LENIENT[0]:
+                    # orphaned in-body clause block (its loop / closure header is gone): dropped, see below
+                    i = j
+                    continue
                 raise Undecided('%s: clause block at annot line %d: preceding line does not end a header: %r'
                                 % (fname, org[1], hdr))
             term = hdr[-1]
